@@ -51,6 +51,9 @@ type Network struct {
 	// Before is called with the request before delivery; it may mutate m.Req, set m.Dropped (the
 	// message is lost and the sender gets an error), or return an error reply without delivery.
 	Before func(m *Msg) error
+	// Intercept, if set, may answer a message itself instead of delivering it (handled=true): this
+	// is how a check simulates peer instances.
+	Intercept func(m *Msg) (resp proto.Message, err error, handled bool)
 	// After is called with the reply before it is returned to the sender; it may mutate m.Resp or
 	// return an error to replace the reply.
 	After func(m *Msg) error
@@ -103,14 +106,26 @@ func NodeName(i int) string { return fmt.Sprintf("signer-test%02d", i+1) }
 
 // NewCluster builds the instances.
 func NewCluster(o ClusterOpts) (*Cluster, error) {
+	return NewClusterWithPeers(o, nil)
+}
+
+// NewClusterWithPeers builds the instances named in o.IDs; peerIDs (nil = o.IDs) are the ids every
+// instance has in its peer table, so a check can play the absent peers itself.
+func NewClusterWithPeers(o ClusterOpts, peerIDs []uint64) (*Cluster, error) {
 	Init()
 	c := &Cluster{ByID: map[uint64]*Node{}}
 	c.Net = &Network{cluster: c, commitWait: map[string]*commitGate{}, prepCount: map[string]int{}}
-	peersMap := map[uint64]string{}
-	for i, id := range o.IDs {
-		peersMap[id] = fmt.Sprintf("%s:%d", NodeName(i), 9000+i)
+	if peerIDs == nil {
+		peerIDs = o.IDs
 	}
-	for i, id := range o.IDs {
+	peersMap := map[uint64]string{}
+	nameOf := map[uint64]int{}
+	for i, id := range peerIDs {
+		peersMap[id] = fmt.Sprintf("%s:%d", NodeName(i), 9000+i)
+		nameOf[id] = i
+	}
+	for _, id := range o.IDs {
+		i := nameOf[id]
 		n := &Node{ID: id, Name: NodeName(i), Endpoint: &core.Endpoint{ID: id, Name: NodeName(i), Port: uint32(9000 + i)}}
 		specs := []WalletSpec{{Name: DWallet, Distributed: true}}
 		nd := WalletSpec{Name: NWallet}
@@ -198,6 +213,16 @@ func (n *Network) record(m *Msg) {
 // Deliver sends a protocol message to the recipient's receiver handler, honouring the hooks.
 func (n *Network) Deliver(m *Msg) (resp proto.Message, err error) {
 	n.record(m)
+	if n.Intercept != nil {
+		if r, e, handled := n.Intercept(m); handled {
+			if e != nil {
+				m.Err = e.Error()
+			}
+			m.Resp = r
+
+			return r, e
+		}
+	}
 	to, ok := n.cluster.ByID[m.To]
 	if !ok {
 		m.Err = "no such instance"
